@@ -1,5 +1,5 @@
 """C01 — answers equal depth-first SLD resolution (structural clauses)."""
-from solver import (outcome_of, Solver, goal_kinds, real_calls, is_none, some_payload, str_cell, const_false, node_field_writes,
+from solver import (outcome_of, emptiness_test, Solver, goal_kinds, real_calls, is_none, some_payload, str_cell, const_false, node_field_writes,
                     NODE_TY)
 from sym import Walker, strip, show, mentions
 
@@ -438,8 +438,7 @@ def run(ctx):
             if nm == "and" and pl is not None:
                 # head's result returned only when the remaining tail is absent / empty
                 emp = any(c == ("variant", ("field", asn, "operator_tail")) and v == "None" for c, v, bb in p.decisions) or \
-                    any(e["k"] == "branch" and e["value"] is True and e["cond"][0] == "binop" and e["cond"][1] == "Eq" and
-                        mentions(e["cond"], lambda t: t[0] == "call" and t[1].endswith("::len")) for e in p.events)
+                    any(emptiness_test(e) is not None for e in p.events)
                 last = [e for e in p.calls() if e["callee"] in solver_fns][-1]
                 if strip(last["args"][0]) != ("field", ("field", asn, "head_sn"), "Some.0") or not emp:
                     if strip(pl)[1] != last["result"] or strip(last["args"][0]) == ("field", ("field", asn, "head_sn"), "Some.0"):
